@@ -71,6 +71,10 @@ impl TryFrom<EdgeLoaderConfig> for EdgeLoader {
             let _ = pb.update(1);
         });
 
+        read_utils::require_csv_columns(
+            &c.edge_list_csv,
+            &["edge_id", "src_vertex_id", "dst_vertex_id", "distance"],
+        )?;
         let edges = read_utils::from_csv(&c.edge_list_csv, true, Some(cb))?;
 
         eprintln!();
